@@ -64,7 +64,7 @@ def run(ck):
         ck.analysed(units=[key], functions=[f'{key}:{fn}'])
         for r in astutil.find(tu.body(fn), 'ReturnStmt'):
             eng = cfgpaths.Engine(tu, fn); v = eng.render(r['inner'][0], cfgpaths.Path())
-            ok = v in ('0', 'EEAV_NO_ERROR', 'TLD_TYPE_SPECIAL', 'rc') or re.fullmatch(r'-EEAV_\w+', v) is not None or re.fullmatch(r'\w+->type', v) is not None \
+            ok = v in ('0', 'EEAV_NO_ERROR', 'TLD_TYPE_SPECIAL', 'rc') or re.fullmatch(r'-EEAV_\w+', v) is not None or re.fullmatch(r"[\w@'#\[\]]+(->|\.)type", v) is not None \
                 or re.fullmatch(r'is_tld#\d+', v) is not None or re.fullmatch(r'\(iserr \? -rc : rc\)', v) is not None
             if ok and v.startswith('-EEAV_') and v[1:] not in codes: ok = False
             t2.instance(f'{key}:{fn}:return@{where(r)}' if not ok else f'{key}:{fn}', ok=ok, wclass='return-value', what=f'{fn} returns {v} at {where(r)}: not a code eav_errstr can describe')
